@@ -370,7 +370,7 @@ CLAUSES = [
                 "/ duplicated / retryable code / fatal code); non-trivial = a "
                 "fault mattered (a retransmission, a late or duplicate or "
                 "stale reply, or an error code was received)",
-           examples={"quick": 700, "thorough": 12000},
+           examples={"quick": 1500, "thorough": 12000},
            shards={"quick": 8, "thorough": 16}),
     Clause("sequence-wrap", check_wrap, strategy=strat_wrap,
            rule="65 600+ instantly answered commands with window 2-4 while "
